@@ -11,7 +11,6 @@ import (
 	"fmt"
 	"io"
 	"log"
-	"reflect"
 	"runtime/debug"
 	"sort"
 	"strings"
@@ -196,185 +195,13 @@ func snapshotWorld(i *IRCServer) *ircgen.World {
 	return w
 }
 
-// ---- canonical state dump (reflection walk, reads unexported fields) ----
+// ---- canonical state dump (reflection walk, reads unexported fields): see vh/dump.go ----
 
-func dumpVal(v reflect.Value, path string, out map[string]string, depth int) {
-	if depth > 14 {
-		out[path] = "?depth"
-		return
-	}
-	switch v.Kind() {
-	case reflect.Ptr:
-		if v.IsNil() {
-			out[path] = "nil"
-			return
-		}
-		t := v.Type().Elem()
-		if t.PkgPath() == "sync" {
-			return
-		}
-		if t == reflect.TypeOf(Session{}) && depth > 2 {
-			out[path] = fmt.Sprintf("session#%d.%d", v.Elem().FieldByName("Id").Field(0).Uint(), v.Elem().FieldByName("Id").Field(1).Uint())
-			return
-		}
-		if t.String() == "regexp.Regexp" {
-			out[path] = "re:" + v.Elem().FieldByName("expr").String()
-			return
-		}
-		dumpVal(v.Elem(), path, out, depth+1)
-	case reflect.Struct:
-		if v.Type().String() == "time.Time" {
-			// raw representation: times built with time.Unix (the only kind an entry can
-			// produce) are normalised, so equal times have equal words; a wall-clock
-			// reading carries a monotonic part and differs between instances.
-			wall, ext := v.FieldByName("wall").Uint(), v.FieldByName("ext").Int()
-			if wall>>63 != 0 {
-				out[path] = fmt.Sprintf("t:WALLCLOCK-READING(%d/%d)", wall, ext)
-				return
-			}
-			out[path] = fmt.Sprintf("t:%d.%09d", ext, wall&0x3fffffff)
-			return
-		}
-		if v.Type().PkgPath() == "sync" {
-			return
-		}
-		for k := 0; k < v.NumField(); k++ {
-			dumpVal(v.Field(k), path+"."+v.Type().Field(k).Name, out, depth+1)
-		}
-	case reflect.Map:
-		if v.Len() == 0 {
-			return // nil and empty maps are the same state
-		}
-		for _, key := range v.MapKeys() {
-			ks := map[string]string{}
-			dumpVal(key, "", ks, depth+1)
-			var parts []string
-			for a, b := range ks {
-				parts = append(parts, a+"="+b)
-			}
-			sort.Strings(parts)
-			dumpVal(v.MapIndex(key), path+"["+strings.Join(parts, ",")+"]", out, depth+1)
-		}
-	case reflect.Slice:
-		if v.Len() == 0 {
-			return // nil and empty slices are the same state
-		}
-		if v.Type().Elem().Kind() == reflect.Uint8 {
-			out[path] = fmt.Sprintf("bytes:%x", v.Bytes())
-			return
-		}
-		for k := 0; k < v.Len(); k++ {
-			dumpVal(v.Index(k), fmt.Sprintf("%s[%d]", path, k), out, depth+1)
-		}
-	case reflect.Array:
-		if v.Type().Elem().Kind() == reflect.Bool {
-			var set []string
-			for k := 0; k < v.Len(); k++ {
-				if v.Index(k).Bool() {
-					set = append(set, fmt.Sprint(k))
-				}
-			}
-			out[path] = "set:" + strings.Join(set, ",")
-			return
-		}
-		for k := 0; k < v.Len(); k++ {
-			dumpVal(v.Index(k), fmt.Sprintf("%s[%d]", path, k), out, depth+1)
-		}
-	case reflect.String:
-		out[path] = "s:" + v.String()
-	case reflect.Bool:
-		out[path] = fmt.Sprint(v.Bool())
-	case reflect.Int, reflect.Int64, reflect.Int32, reflect.Int16, reflect.Int8:
-		out[path] = fmt.Sprint(v.Int())
-	case reflect.Uint64, reflect.Uint8, reflect.Uint, reflect.Uint32, reflect.Uint16:
-		out[path] = fmt.Sprint(v.Uint())
-	case reflect.Interface:
-		if !v.IsNil() {
-			dumpVal(v.Elem(), path, out, depth+1)
-		}
-	case reflect.Func:
-		// not state
-	default:
-		out[path] = "?" + v.Kind().String()
-	}
-}
+func dumpServer(i *IRCServer) map[string]string { return vh.DumpServer(i) }
 
-// dumpServer renders the whole replicated state as path -> value. The server
-// creation time (numeric 003) is the one tolerated difference; serverSessions
-// is compared as a set (rebuilt from a map on load).
-func dumpServer(i *IRCServer) map[string]string {
-	out := map[string]string{}
-	dumpVal(reflect.ValueOf(i).Elem(), "", out, 0)
-	var ss []string
-	for k, v := range out {
-		if strings.HasPrefix(k, ".ServerCreation") {
-			delete(out, k)
-		}
-		if strings.HasPrefix(k, ".serverSessions[") {
-			ss = append(ss, v)
-			delete(out, k)
-		}
-	}
-	sort.Strings(ss)
-	out[".serverSessions(as set)"] = strings.Join(uniq(ss), ",")
-	return out
-}
+func diffDumps(a, b map[string]string, max int) []string { return vh.DiffDumps(a, b, max) }
 
-func uniq(s []string) []string {
-	var o []string
-	for i, x := range s {
-		if i == 0 || x != s[i-1] {
-			o = append(o, x)
-		}
-	}
-	return o
-}
-
-func diffDumps(a, b map[string]string, max int) []string {
-	var d []string
-	for k, va := range a {
-		if vb, ok := b[k]; !ok {
-			d = append(d, fmt.Sprintf("%s: %.60s vs <absent>", k, va))
-		} else if va != vb {
-			d = append(d, fmt.Sprintf("%s: %.60s vs %.60s", k, va, vb))
-		}
-	}
-	for k, vb := range b {
-		if _, ok := a[k]; !ok {
-			d = append(d, fmt.Sprintf("%s: <absent> vs %.60s", k, vb))
-		}
-	}
-	sort.Strings(d)
-	if len(d) > max {
-		d = append(d[:max], fmt.Sprintf("... and %d more", len(d)-max))
-	}
-	return d
-}
-
-var pathIndexStripper = strings.NewReplacer()
-
-// genericPath replaces map keys / indexes in a dump path by * so that it can serve as a signature.
-func genericPath(p string) string {
-	var b strings.Builder
-	depth := 0
-	for _, r := range p {
-		switch {
-		case r == '[':
-			if depth == 0 {
-				b.WriteString("[*")
-			}
-			depth++
-		case r == ']':
-			depth--
-			if depth == 0 {
-				b.WriteByte(']')
-			}
-		case depth == 0:
-			b.WriteRune(r)
-		}
-	}
-	return b.String()
-}
+func genericPath(p string) string { return vh.GenericPath(p) }
 
 // ---- cases, oracles, runner ----
 
